@@ -19,6 +19,10 @@ SPEC = Spec(
         Harness(name="stress", module="otelcol", pkg="otelcol",
                 files={"zz_verif_c20_runloop_test.go": "c20/runloop_test.go", "zz_verif_c20_concurrent_test.go": "c20/concurrent_test.go"},
                 test="TestVerifC20ConcurrentShutdown", driver="drv_c20", n={"quick": 400, "thorough": 4000}, timeout_s=1500),
+        # provider goroutines log through the ProviderSettings logger while start-up and reloads swap its core (monitored only)
+        Harness(name="provlog", module="otelcol", pkg="otelcol",
+                files={"zz_verif_c20_runloop_test.go": "c20/runloop_test.go", "zz_verif_c20_providerlog_test.go": "c20/providerlog_test.go"},
+                test="TestVerifC20ProviderLogs", driver="drv_c20", n={"quick": 8, "thorough": 60}, timeout_s=1500),
         # native scheduling, no gates: monitored only (M)
         Harness(name="race", module="otelcol", pkg="otelcol",
                 files={"zz_verif_c20_runloop_test.go": "c20/runloop_test.go"},
@@ -28,17 +32,23 @@ SPEC = Spec(
          "confmap provider and instrumented receiver/exporter/extension factories; the Run goroutine is parked at gates inside the "
          "hooks (provider Retrieve, exporter Start, exporter Shutdown, provider Shutdown) while a random walk performs external "
          "events (Shutdown() from 1-3 goroutines, SIGHUP/SIGTERM via signalsChannel, watch ok/error via the resolver's watcher func, "
-         "async error via asyncErrorChannel, ctx cancel) before Run, at every gate, in the select and after Run returned, and picks "
+         "async error via asyncErrorChannel, a component's StatusFatalError reported through the REAL host — from a goroutine of the "
+         "started exporter at any gate / in the select, or synchronously from inside its Start —, ctx cancel; signals are offered "
+         "with a non-blocking send like os/signal does, also beyond the channel's capacity of 3, where they are dropped and nothing "
+         "must happen) before Run, at every gate, in the select and after Run returned, and picks "
          "failing outcomes (Retrieve / create / Start / component Shutdown / provider Shutdown) with probability 1/8 per step; "
-         "4-27 labels per history, then finished with ok outcomes; case 0 is the corpus witness (SIGHUP, Shutdown() while Closing). "
+         "4-27 labels per history, then finished with ok outcomes; case 0 is the corpus witness (SIGHUP, Shutdown() while Closing), "
+         "cases 1-3 the fatal-report witnesses (SIGTERM taken then FatalError; SIGHUP taken then FatalError; FatalError twice). "
+         "`op shutdown k` (k callers through a spin barrier) is replayed on the model as k guard reads followed by the closes, i.e. "
+         "through states with several callers past the guard. "
          "Every label is an `op`, the observable state (GetState, shutdownChan closed?, generation, live generations, per-generation "
          "service shutdown count, provider shutdown count, Run's result) after it is diffed exactly with the model; the select branch "
          "taken is read from the service log and fed to the model, which checks it was enabled; a further gate sits in the log hook "
          "right after the select receive (state still Running, Run committed to the branch). non-trivial = at least one reload; "
          "distinct = distinct op sequence. exhaustive: every script over the gate alphabet {go, fail, shutdown, hup, term, watch, "
-         "watcherr, async, cancel} of length <= n (quick 3, thorough 5) from three anchors (not started; Running idle in the select; "
+         "watcherr, async, cancel, fatal} of length <= n (quick 3, thorough 5) from three anchors (not started; Running idle in the select; "
          "select has just received SIGHUP), breadth first, only tokens applicable where the parent script ended, completed with ok "
-         "outcomes; case id = the script in decimal digits; same protocol, model and oracles. race: no gates, every hook (Factories, "
+         "outcomes; case id = the script in base-11 digits; same protocol, model and oracles. race: no gates, every hook (Factories, "
          "Retrieve, each component Start/Shutdown, provider Shutdown, the log hook right after the select receive) is a yield point "
          "sleeping 0-0.3 ms, 1-4 reload triggers and 1-3 Shutdown() calls (1/3 of "
          "the cases plus SIGTERM / async error / cancel) from goroutines with random 0-3 ms delays; the event log is checked by the "
@@ -47,12 +57,25 @@ SPEC = Spec(
          "Shutdown() callers released through a spin barrier on fresh collectors (20-59 trials each, shutdownChan re-made between "
          "trials) and, every 4th case, on a Running collector (one trial, then Run must return); a panic in a caller is "
          "C20/shutdown/concurrent-call-panicked (Go oracle and Lean-side prop callsafe); Shutdown() from k>=2 goroutines in the "
-         "gated and race harnesses also goes through the spin barrier.",
+         "gated and race harnesses also goes through the spin barrier. provlog: min(8, GOMAXPROCS) goroutines log continuously "
+         "through the logger NewCollector hands to providers/converters (collectorCore) from before Run through start-up and 30-69 "
+         "reloads (watch notification / SIGHUP alternating, each must return to Running), then Shutdown(); watchdog 4 s per step -> "
+         "C20/runloop/run-wedged-while-provider-logs; end state Closed / provider shut down once / trace monitor. A Run goroutine "
+         "that stops making progress in a gated history while a FatalError report has not come back is "
+         "C20/runloop/run-wedged-while-fatal-error-report-pending.",
     trusted_base=[
         "Lean 4.33.0 kernel; axioms per theorem listed under axioms_per_theorem (subset of propext, Classical.choice, Quot.sound)",
         "hand-written LTS of otelcol/collector.go (Run, setupConfigurationComponents, reloadConfiguration, shutdown, Shutdown) in "
         "Model/C20.lean, one label per statement of the Run goroutine; tied by exact differential on every run at the granularity "
         "of the harness gates, finer interleavings only monitored (race harness)",
+        "termination of every call the Run goroutine makes (Factories, configProvider.Get/Shutdown, service.New/Start/Shutdown) is "
+        "built into the model (single always-enabled fallible steps): C20_run_never_stuck is definitional and C20_stop_returns "
+        "rests on it; on the real code a watchdog observes it per step. The one collector-made hang of service.Start/Shutdown "
+        "(FatalError report under the status reporter's lock) is modelled, refuted for the unrepaired host and repaired",
+        "that Service.Shutdown shuts every component down exactly once ALSO when it returns an error is imported from C10 "
+        "(C10_exactly_once, C10_stop_failure, for every set of failing shutdowns): svcShutdown removes the generation from `live` "
+        "whatever the outcome; `expand` takes C10's component-level shape as its definition; the real component-level logs are "
+        "judged by the same monitor without that assumption",
         "Go runtime: channel/select semantics (a ready branch is eventually taken; closed channel stays ready), atomic state word, "
         "recover of the double close; modelled, not verified",
         "service.Service.Start/Shutdown and confmap.Resolver are exercised for real but modelled as single fallible steps; that "
@@ -69,6 +92,15 @@ SPEC = Spec(
         "a config provider notifies at most once per Retrieve and never after its Shutdown (confmap.WatcherFunc contract); the model "
         "itself allows any number of pending notifications",
         "Run is called at most once per Collector (documented)",
+        "channels are idealised as pending counters: a `post hup/term` is a signal that ENTERED signalsChannel (capacity 3; a signal "
+        "arriving while three are pending is dropped by os/signal before it reaches the collector — OS signal delivery, outside the "
+        "statement's reach; the harness offers such signals and checks nothing happens); watcher channel capacity 1: a further "
+        "notification blocks in the provider's goroutine (pending in the model) and panics there if the provider is shut down "
+        "meanwhile — excluded by the provider contract; asyncErrorChannel unbuffered: direct senders and component reports are "
+        "pending senders (repaired host: the report's hand-over goroutine; it never holds up the component or the status reporter)",
+        "components and providers themselves terminate: a Start/Shutdown/Retrieve that blocks forever is outside model and harness",
+        "interleavings below gate granularity (and two Shutdown() callers between guard read and close on the REAL code) are "
+        "monitored (race / stress harness, sampled schedules), not compared exactly; the theorems cover them",
         "a failed reload returns from Run without passing through shutdown (state stays Starting/Closing, providers not shut down): "
         "modelled as is; the statement's Closed clause lists other stop reasons, so this is recorded, not flagged",
     ],
